@@ -48,14 +48,72 @@ def _verdict(rep, rule, key, loc, actual, expected_for, what, P, allowed_atoms=N
                                                                      show(exp)[:200]))
 
 
+def _specialise(f, sym, P, p, flag_local, value, depth=0):
+    """replace every multi-definition local atom of p by the definition that is consistent
+    with `flag == value` (definitions guarded by facts on the flag parameter); atoms that stay
+    ambiguous are kept"""
+    if p is None or depth > 6:
+        return p
+    flag = ("param", flag_local, f.local_name(flag_local))
+
+    def pick(a):
+        if a[0] != "l":
+            return None
+        l = a[2]
+        defs = [d for d in f.defs().get(l, []) if d[3]]
+        if len(defs) < 2:
+            return None
+        keep = []
+        for (bb, j, rv, w) in defs:
+            consistent = True
+            for cond, val in sym.facts_at(bb):
+                c = cond
+                while c[0] == "cast":
+                    c = c[2]
+                if c == flag and isinstance(val, (bool, int)) and bool(val) != value:
+                    consistent = False
+            if consistent:
+                keep.append((bb, j, rv))
+        if len(keep) != 1:
+            return None
+        q = P.norm(sym.rvalue(keep[0][2], keep[0][0], (keep[0][0], keep[0][1])))
+        if q is None:
+            return None
+        return _specialise(f, sym, P, q, flag_local, value, depth + 1)
+    return poly.map_atoms(p, pick)
+
+
+def _judge(rep, rule, key, loc, what, act, exp, base, P):
+    if act is None:
+        rep.unk(rule, key, loc, "%s does not normalise (%s)" % (what, P.failed))
+    elif exp is not None and equal(act, exp):
+        rep.ok(rule, key, loc, "%s = %s" % (what, show(act)[:150]))
+    elif exp is None:
+        rep.unk(rule, key, loc, "%s = %s: expected form not built" % (what, show(act)[:140]))
+    else:
+        foreign = [a for a in poly.leaf_atoms(act) if a not in base]
+        if foreign:
+            rep.unk(rule, key, loc, "%s = %s depends on quantities outside the formula (%s)" % (
+                what, show(act)[:140], ", ".join(poly._show_atom(a) for a in foreign[:3])))
+        elif [n for n in poly.opaque_names(act) if n != "max"] != \
+                [n for n in poly.opaque_names(exp) if n != "max"]:
+            rep.unk(rule, key, loc, "%s = %s uses other rounding / clamping functions than the "
+                    "formula %s" % (what, show(act)[:120], show(exp)[:120]))
+        else:
+            rep.bad(rule, key, loc, "%s is computed as  %s  but the property requires  %s  (both "
+                    "are functions of the same quantities and differ as polynomials)" % (
+                        what, show(act)[:220], show(exp)[:220]))
+
+
 def coefficients_formula(rep, prog, rule):
-    rep.rule(rule, "in precompute_coefficients the centre of destination sample i is "
-             "in0 + (i + 1/2) * (in1 - in0) / out_size, the window is "
-             "[floor(centre - support * filter_scale) clamped at 0, ceil(centre + support * "
-             "filter_scale) clamped at in_size), the kernel is evaluated at "
-             "(x + 1/2 - centre) / filter_scale and filter_scale is max(scale, 1) (adaptive) or 1: "
-             "each expression is normalised to a polynomial over (in0, in1, out_size, i, x, "
-             "support, filter_scale) and compared with the stated formula as a function")
+    rep.rule(rule, "in precompute_coefficients, for adaptive_kernel_size = true and = false "
+             "separately (definitions guarded by the flag are selected accordingly): the centre of "
+             "destination sample i is in0 + (i + 1/2) * (in1 - in0) / out_size, the window is "
+             "[floor(centre - support * fs) clamped at 0, ceil(centre + support * fs) clamped at "
+             "in_size), the kernel is evaluated at (x + 1/2 - centre) / fs, with fs = max(scale, 1) "
+             "for adaptive kernels and fs = 1 otherwise: each expression is normalised to a "
+             "polynomial over (in0, in1, out_size, in_size, i, x, support) and compared with the "
+             "stated formula as a function")
     f = prog.fn_by_name("convolution::precompute_coefficients")
     rep.touch(f)
     sym = Sym(f)
@@ -63,113 +121,63 @@ def coefficients_formula(rep, prog, rule):
     in0, in1 = p_atom(("v", "in0")), p_atom(("v", "in1"))
     outn = p_atom(("v", "out_size"))
     sup = p_atom(("v", "filter_support"))
-    fs_l = _local(f, "filter_scale")
-    if fs_l is None:
-        rep.unk(rule, "anchors", f.loc, "local filter_scale not found")
+    insz = p_atom(("v", "in_size"))
+    flag_l = f.param_index("adaptive_kernel_size")
+    if flag_l is None:
+        rep.unk(rule, "anchors", f.loc, "parameter adaptive_kernel_size not found")
         return
-    fscale = p_atom(("l", "filter_scale", fs_l))
     inv_out = p_atom(("inv", freeze(outn)))
     scale = p_mul(p_add(in1, in0, -1), inv_out)
+    one = p_const(Fraction(1))
+    fs_adaptive = p_atom(("max",) + tuple(sorted([freeze(scale), freeze(one)], key=repr)))
 
     def centre(x):
-        xi = p_atom(x) if x is not None else None
-        if xi is None:
-            return None
-        return p_add(in0, p_mul(p_add(xi, HALF), scale))
-    # 1. centre
-    l = _local(f, "in_center")
-    if l is None:
-        rep.unk(rule, "centre", f.loc, "local in_center not found")
-        return
-    c_act = P.norm(sym.local(l))
-    _verdict(rep, rule, "centre", f.loc, c_act, centre, "the centre of destination sample i", P)
-    # 2. window
-    radius = p_mul(sup, fscale)
-    for name, inner_fn, outer_fn, bound, sign in (("x_min", "floor", "max", p_const(Fraction(0)), -1),
-                                                  ("x_max", "ceil", "min", p_atom(("v", "in_size")), 1)):
-        l = _local(f, name)
-        if l is None:
-            rep.unk(rule, name, f.loc, "local %s not found" % name)
-            continue
-        act = P.norm(sym.local(l))
-        key = "window|" + name
-
-        def expect(x, inner_fn=inner_fn, outer_fn=outer_fn, bound=bound, sign=sign):
-            c = centre(x)
-            if c is None:
-                return None
-            q = p_add(c, radius, sign)
-            a = (inner_fn, freeze(q))
-            args = sorted([freeze(p_atom(a)), freeze(bound)], key=repr)
-            return p_atom(("trunc", freeze(p_atom((outer_fn,) + tuple(args)))))
-        if act is None:
-            rep.unk(rule, key, f.loc, "%s does not normalise (%s)" % (name, P.failed))
-            continue
-        ok = False
-        for a in atoms_of(act):
-            pass
-        # iteration atoms hide inside the opaque calls: collect them recursively
-        its = _deep_iter_atoms(act)
-        for x in its or [None]:
-            e = expect(x)
-            if e is not None and equal(act, e):
-                ok = True
-        if ok:
-            rep.ok(rule, key, f.loc, "%s = %s(%s(centre %s support*filter_scale), %s)" % (
-                name, outer_fn, inner_fn, "-" if sign < 0 else "+", show(bound)))
-        else:
-            inner = _unwrap(act, [("trunc",), (outer_fn,), (inner_fn,)])
-            e_in = None
-            for x in its or [None]:
-                c = centre(x)
-                if c is not None:
-                    e_in = p_add(c, radius, sign)
-                    if inner is not None and equal(inner, e_in):
-                        break
-            if inner is not None and e_in is not None and not equal(inner, e_in) and \
-                    not [a for a in atoms_of(inner) if a[0] in ("l", "g", "trunc", "floor", "ceil", "max", "min")
-                         and a not in atoms_of(e_in)]:
-                rep.bad(rule, key, f.loc, "%s is %s(%s(%s) ..) but the window edge of the property "
-                        "is %s" % (name, outer_fn, inner_fn, show(inner)[:160], show(e_in)[:160]))
-            else:
-                rep.unk(rule, key, f.loc, "%s = %s: shape not recognised" % (name, show(act)[:160]))
-    # 3. kernel argument (the only indirect call of the function)
+        return p_add(in0, p_mul(p_add(p_atom(x), HALF), scale))
+    l_c = _local(f, "in_center")
     calls = [c for c in f.calls() if c.callee.get("id") is None and len(c.args) == 1]
     rep.floor(rule, "kernel evaluations", len(calls), 1)
-    for c in calls:
-        arg = P.norm(sym.operand(c.args[0], (c.bb, "term")))
-        its = _iter_atoms(arg) if arg is not None else []
-
-        def expect(_x):
-            best = None
-            for xo in its:
-                for xi in its:
-                    if xi == xo:
-                        continue
-                    cc = centre(xo)
-                    e = p_mul(p_add(p_add(p_atom(xi), HALF), cc, -1), p_atom(("inv", freeze(fscale))))
-                    if arg is not None and equal(arg, e):
-                        return e
-                    best = best or e
-            return best
-        _verdict(rep, rule, "kernel-argument", c.at, arg, expect,
-                 "the argument of the kernel for source pixel x", P)
+    for case in (True, False):
+        tag = "adaptive" if case else "fixed"
+        fs = fs_adaptive if case else one
+        inv_fs = p_atom(("inv", freeze(fs))) if case else one
+        # 1. centre
+        if l_c is None:
+            rep.unk(rule, "%s|centre" % tag, f.loc, "local in_center not found")
+            continue
+        c_act = _specialise(f, sym, P, P.norm(sym.local(l_c)), flag_l, case)
+        its = _deep_iter_atoms(c_act) if c_act is not None else []
+        xo = its[0] if len(its) == 1 else None
+        base = {("v", "in0"), ("v", "in1"), ("v", "out_size"), ("v", "filter_support"),
+                ("v", "in_size")} | set(its)
+        _judge(rep, rule, "%s|centre" % tag, f.loc, "the centre of destination sample i", c_act,
+               centre(xo) if xo else None, base, P)
+        if xo is None:
+            continue
+        # 2. window
+        for name, inner_fn, outer_fn, bound, sign in (
+                ("x_min", "floor", "max", p_const(Fraction(0)), -1),
+                ("x_max", "ceil", "min", insz, 1)):
+            l = _local(f, name)
+            if l is None:
+                rep.unk(rule, "%s|window|%s" % (tag, name), f.loc, "local %s not found" % name)
+                continue
+            act = _specialise(f, sym, P, P.norm(sym.local(l)), flag_l, case)
+            q = p_add(centre(xo), p_mul(sup, fs), sign)
+            inner = p_atom((inner_fn, freeze(q)))
+            args = sorted([freeze(inner), freeze(bound)], key=repr)
+            exp = p_atom(("trunc", freeze(p_atom((outer_fn,) + tuple(args)))))
+            _judge(rep, rule, "%s|window|%s" % (tag, name), f.loc,
+                   "the %s of the window" % ("first pixel" if sign < 0 else "end"), act, exp, base, P)
+        # 3. kernel argument
+        for c in calls:
+            arg = _specialise(f, sym, P, P.norm(sym.operand(c.args[0], (c.bb, "term"))), flag_l, case)
+            xs = [a for a in (_deep_iter_atoms(arg) if arg is not None else []) if a != xo]
+            xi = xs[0] if len(xs) == 1 else None
+            exp = p_mul(p_add(p_add(p_atom(xi), HALF), centre(xo), -1), inv_fs) if xi else None
+            _judge(rep, rule, "%s|kernel-argument" % tag, c.at,
+                   "the argument of the kernel for source pixel x", arg, exp,
+                   base | ({xi} if xi else set()), P)
     window_arguments(rep, prog, rule)
-    # 4. filter scale
-    vals = set()
-    for (bb, j, rv, whole) in f.defs().get(fs_l, []):
-        p = P.norm(sym.rvalue(rv, bb, (bb, j)))
-        vals.add(freeze(p) if p is not None else None)
-    one = freeze(p_const(Fraction(1)))
-    mx = freeze(p_atom(("max",) + tuple(sorted([freeze(scale), one], key=repr))))
-    if vals == {one, mx}:
-        rep.ok(rule, "filter-scale", f.loc, "filter_scale in {1, max(scale, 1)}")
-    elif None in vals or len(vals) != 2:
-        rep.unk(rule, "filter-scale", f.loc, "definitions of filter_scale not recognised")
-    else:
-        rep.bad(rule, "filter-scale", f.loc, "filter_scale takes the values %s; the property needs "
-                "max((in1 - in0) / out_size, 1) for adaptive kernels and 1 otherwise" % [
-                    show(dict(v)) for v in vals])
 
 
 def window_arguments(rep, prog, rule):
